@@ -25,7 +25,7 @@ import (
 // job is one history to run.
 type job struct {
 	Idx  int    `json:"idx"`
-	Kind string `json:"kind"` // random | split | silent | big | manyfiles | memdb
+	Kind string `json:"kind"` // random | split | silent | big | manyfiles | memdb | keysets
 }
 
 func main() {
@@ -39,8 +39,11 @@ func main() {
 		"per file a subset of metrics, fields and series, silent series, nil/empty fields; slot ranges same/nested/single/overlapping/disjoint/touching/>360 slots; " +
 		"compaction by Family.Compact, store tick, forced job or concurrently with a flush; optional close+reopen; kinds: random, manyfiles (6-12 level-0 tables), " +
 		"silent (single-field block with a byte-less series bucket), split (MaxFileSize 64..4096 so the output rolls over), big (3000/66000-series blocks), " +
-		"memdb (blocks flushed by the real memory database of a tsdb engine)); after every step all cells are read back through the query-path reader " +
-		"and compared with the naive cell map and, for a compaction, table by table with the values of its input tables. " +
+		"memdb (blocks flushed by the real memory database of a tsdb engine), keysets (5-8 small metrics, 2-3 rounds of 6-12 level-0 tables plus the overlapping " +
+		"level-1 tables in ONE compaction, every table holding its own subset of the metrics - random density, run of metric ids with holes, one or two, half - " +
+		"so that tables leave the k-way merge at different keys while >= 5 others are live)); after every step all cells are read back through the query-path reader " +
+		"and compared with the naive cell map and, for a compaction, table by table with the values of its input tables; " +
+		"the real merged iterator is run again over the input tables of every compaction (snapshot taken before it) and must emit every entry once, keys ascending. " +
 		"Non-trivial = a compaction that merged >= 2 input files sharing at least one (metric, series, field) pair; distinct by (history, step).")
 	c.Assume("blocks are written with the real flusher following memdb's call protocol; the flusher/reader pair is itself checked after every flush (classes C03/flush/...)")
 	c.Assume("values are integers |v| < 2^40 so that sums are exact in float64; field ids keep one type per metric (schema invariant)")
@@ -59,6 +62,19 @@ func main() {
 	add("split", c.Pick(10, 300))
 	add("big", c.Pick(1, 8))
 	add("memdb", c.Pick(1, 6))
+	add("keysets", c.Pick(72, 1200)) // appended last: the histories above keep their index and random stream
+
+	// developer aid: run the histories of one kind only (indexes and random streams unchanged); never a verdict
+	if only := os.Getenv("C03_ONLY_KIND"); only != "" {
+		var kept []job
+		for _, j := range jobs {
+			if j.Kind == only {
+				kept = append(kept, j)
+			}
+		}
+		jobs = kept
+		c.Inconclusive("C03_ONLY_KIND=%s: partial run over %d histories", only, len(jobs))
+	}
 
 	scratch := c.Scratch()
 	// batches: split and big histories alone (a split history is expected to kill its process while the rollover
@@ -138,6 +154,16 @@ func main() {
 	}
 	if c.Counter("compactions_merging_l0_with_overlapping_l1") < 5 {
 		c.Inconclusive("only %d compactions merged level 0 with an overlapping level-1 file", c.Counter("compactions_merging_l0_with_overlapping_l1"))
+	}
+	// wide merges over differing key sets (kind keysets): the unchanged tree reaches ~200 / ~180 of them in the quick tier
+	if n, need := c.Counter("compactions_with_6_or_more_input_tables_and_differing_key_sets"), int64(c.Pick(100, 1500)); n < need {
+		c.Inconclusive("only %d compactions merged >= 6 input tables with differing key sets (need %d)", n, need)
+	}
+	if n, need := c.Counter("compactions_where_a_table_ends_while_5_or_more_others_are_live"), int64(c.Pick(80, 1200)); n < need {
+		c.Inconclusive("only %d compactions in which an input table ran out of keys while >= 5 others were live (need %d)", n, need)
+	}
+	if n := c.Counter("merge_replays_checked_complete") + c.Counter("merge_replays_with_violation"); n < c.Counter("merge_replays") {
+		c.Inconclusive("%d of %d replays of the merged iterator did not run to the end", c.Counter("merge_replays")-n, c.Counter("merge_replays"))
 	}
 	if c.Counter("cells_compared_after_compact") < 1000 {
 		c.Inconclusive("only %d cells compared after a compaction", c.Counter("cells_compared_after_compact"))
